@@ -4,11 +4,11 @@
    manifest = ((unique hash size) ...)
    1300: (storage) -> (0 list_ok verify)
    1301: (groups-as-times now threshold_opt) -> (0 code age empty_groups)
-   700:  (groups max_per max_groups day time manifest) -> (0) group exists | (1 groups_after_publish groups_after_gc)
+   700:  (groups max_per max_groups day time manifest root_clean) -> (0) group exists | (1 groups_after_publish groups_after_gc)
    701:  (groups max_per day) -> (1 groups) a run that fails after group selection *)
 From Coq Require Import List NArith Bool Arith.
 Import ListNotations.
-Require Import Wire Verify Alarm.
+Require Import Wire Verify VerifyBound Alarm.
 Local Open Scope N_scope.
 
 Definition dec_mline (v : val) : option mline :=
@@ -68,14 +68,14 @@ Definition run_c13_alarm (v : val) : val :=
 
 Definition run_c07_publish (v : val) : val :=
   match v with
-  | VL [gs; VN mp; VN mg; VN day; VN time; ls] =>
-    match as_listof dec_grp gs, as_listof dec_mline ls with
-    | Some gs, Some ls =>
+  | VL [gs; VN mp; VN mg; VN day; VN time; ls; rc] =>
+    match as_listof dec_grp gs, as_listof dec_mline ls, as_bool rc with
+    | Some gs, Some ls, Some rc =>
       match publish gs (N.to_nat mp) (N.to_nat day) (N.to_nat time) ls with
       | None => VL [VN 0]
-      | Some gs' => VL [VN 1; of_list enc_grp gs'; of_list enc_grp (gc gs' (N.to_nat mg))]
+      | Some gs' => VL [VN 1; of_list enc_grp gs'; of_list enc_grp (gc_root rc gs' (N.to_nat mg))]
       end
-    | _, _ => bad_input end
+    | _, _, _ => bad_input end
   | _ => bad_input end.
 
 Definition run_c07_fail (v : val) : val :=
